@@ -250,6 +250,9 @@ func TestVerifC36Persist(t *testing.T) {
 	dir := c.Scratch("persist")
 	defer os.RemoveAll(dir)
 	ncases := c.N(60, 600)
+	if c.Lane == "race" {
+		ncases = c.N(60, 200)
+	}
 	for i := 0; i < ncases && c.Violations() <= 20; i++ {
 		r := c.Rand(3601, uint64(i))
 		dil := []uint64{1, 2, 3, 5, 8}[r.Intn(5)]
